@@ -79,6 +79,10 @@ func cmdGenerate(args []string) {
 		genCommonFunc(args[1], args[2], builder.TsGenFromString)
 	case "rust":
 		fmt.Println("not support rust yet")
+		os.Exit(1) // nothing was generated: not a success
+	default:
+		fmt.Printf("unknown file type %s: use go or typescript\n", args[0])
+		os.Exit(1)
 	}
 }
 
